@@ -238,9 +238,9 @@ def to_upper_case_url(url):
     url_lower = url.lower()
 
     if url_lower.startswith('https://'):
-        return f'https://{encode_value(url[:8].upper())}'
+        return f'https://{encode_value(url[8:].upper())}'
     elif url_lower.startswith('http://'):
-        return f'http://{encode_value(url[:7].upper())}'
+        return f'http://{encode_value(url[7:].upper())}'
 
     # else:
     return f'http://{encode_value(url.upper())}'
